@@ -107,6 +107,8 @@ type SchedOpts struct {
 	Outcome func(r *vrt.Result) string
 	// NoDetCheck skips the start-up determinism run (used by callers that do it themselves).
 	NoDetCheck bool
+	// NoSamples: the caller records its own samples (operation histories instead of choice lists).
+	NoSamples bool
 }
 
 func choiceIdx(cs []vrt.Choice) []int {
@@ -208,7 +210,7 @@ func (jc *JobCtx) Sched(o SchedOpts, body func(), check func(r *vrt.Result) vrt.
 				rep.Nontrivial++
 			}
 		}
-		if len(rep.Samples) < 2 && (rep.Executions == 0 || r.Switches > 1) {
+		if !o.NoSamples && len(rep.Samples) < 2 && (rep.Executions == 0 || r.Switches > 1) {
 			rep.sample(fmt.Sprintf("%s schedule=[%s] steps=%d switches=%d outcome=%s", jc.Job.Name, choiceStr(choiceIdx(r.Choices)), r.Steps, r.Switches, oc))
 		}
 		return v
